@@ -220,7 +220,12 @@ def run(ctx):
                 "without a blank), 0-3 prior real setups (so other versions of the same products are already set up), "
                 "final request bare or with an explicit version; then scenarios for the composed model: the other line "
                 "forms (bracketed expression alone, relational version, -j with a version) and requests carrying "
-                "--keep / --just / --max-depth / unsetup anywhere in the sequence; non-trivial = the final request "
+                "--keep / --just / --max-depth / unsetup anywhere in the sequence; then worlds whose table texts vary "
+                "(synonyms and letter case of command names, layout, quoting, legacy variable names, PRODUCT_NAME / "
+                "VERSION / FLAVOR, UPS_DIR, PRODUCTS, PRODUCT_DIR_EXTRA, if / else if / else blocks on type and flavor, "
+                "empty branches) with setups and unsetups, and directed tables (first-spelling rule of PRODUCT_DIR, "
+                "replacement in the first argument, option words of dependency lines, a fall-back-flavor product with "
+                "a flavor condition); non-trivial = the final request "
                 "succeeds; distinct = distinct (world, requests)")
     ctx.trusted_base = common.COMMON_TRUSTED + [
         "two model runs per request: Model/Setup.v fed with the decisions of the real resolver (captured by a spy), and "
@@ -228,7 +233,12 @@ def run(ctx):
         "NO decisions - world, per-line request information as the real Action.processArgs returns it, chain files as "
         "the real database reports them, environment before; compared: success, environment, aliases, and every "
         "version decided along the way",
-        "tables enter the models as the actions the real parser derives (C11)",
+        "tables enter these two models as the actions the real parser derives (C11); a third run per request, the "
+        "text-fed model Model/SetupText.v (C11's table_actions, the implicit product line, expandEupsVariables, command "
+        "kinds, processArgs, then Model/Setup.v), starts from the table TEXTS the generator wrote and is fed the same "
+        "decisions; every table is also compared action by action (text-table-comparisons)",
+        "harness/setupsim.py tworld_field / model_line_text: directory and flavor of every product as the real "
+        "findProduct reports them; Eups.setupType = exact and the implicit product name as shipped",
         "the composed model runs with the dotted-numeric comparator of Model/Resolve.v (C10 models the real one); the "
         "generated version names 1.0 2.0 3.0 9.9 and one-term expressions are inside that fragment",
         "harness/setupsim.py line_infos / model_line_full: encoding of processArgs results and product tags"]
@@ -249,6 +259,11 @@ def run(ctx):
     extra = [gen_scenario_full(ctx.rng) for _ in range(ctx.size(80, 1200))]
     for i in range(0, len(extra), 400):
         S.run_scenarios(ctx, extra[i:i + 400], oracle)
+    # scenarios aimed at the text-fed model (coq/Model/SetupText.v): table texts under the other spellings and layouts of
+    # the grammar, the other variables expandEupsVariables replaces, conditional blocks; then the directed ones
+    textual = S.directed_text_scenarios() + [S.gen_scenario_text(ctx.rng) for _ in range(ctx.size(80, 1200))]
+    for i in range(0, len(textual), 400):
+        S.run_scenarios(ctx, textual[i:i + 400], oracle)
 
 
 def replay(ctx, path):
